@@ -390,7 +390,7 @@ class OscMessagePatternDispatcher(OscMessageDispatcher):
         pattern = msg[0]
         for key, funcs in self.active.copy().items():
             if _match_osc_address_pattern(pattern, key):
-                for func in funcs:
+                for func in funcs[:]:
                     fn.value(func, msg, time, addr, recv_port)
 
     def type_key(self):
